@@ -25,8 +25,10 @@ PROPS = {
         "k_timeout": {"quick": 1500, "thorough": 3000},
         "bounds": {"all": "Engine M: epoch_milliseconds for every instant; NormalizedTimeDuration difference/add_days for every operand in range; "
                           "AddInstant and AddTime (PlainTime::add_to_time) for every receiver and every duration whose six fields are integral doubles with |field| < 2^53 - 1000; "
+                          "Instant::until/since (any two instants less than 2^53 ns apart) and PlainTime::until/since (any two times): exact difference, sign-uniform, balanced to every "
+                          "largest unit hour..nanosecond with default rounding; "
                           "Engine K: one field at a time beyond 2^53"},
-        "outside": "several fields above 2^53 at once, the f64 -> i64 saturating casts above 2^63 ns in PlainTime::add, until/since balancing",
+        "outside": "several fields above 2^53 at once, the f64 -> i64 saturating casts above 2^63 ns in PlainTime::add, instant differences above 2^53 ns, until/since with non-default rounding (C07 decides the rounder itself)",
     },
     "C16": {
         "m": None,
